@@ -212,3 +212,144 @@ Proof.
   split; [cbn; lia|]. split; [intros _; exact ex2_sd_nonzero|].
   split; [exact ex2_pca_fact_ok|exact ex2_pca_fit_some].
 Qed.
+
+(* ============================== END TO END (exact arithmetic) ============================== *)
+(* The factorisation arguments instantiated with the MODELS of the code's own routines over the reals:
+   `svd_fact cs minpos` = C01's model of svd_mut (src/linalg/svd.rs) with the negligibility threshold
+   eps := 0, `evd_fact` = C02's model of evd(true) (tred2 + QL sweeps + sort, src/linalg/evd.rs) with
+   eps := 0 and exact hypot.  pca_fact_ok / tsvd_fact_ok are no longer hypotheses: they are proved from
+   C01's svd_mut_correct and C02's evd_sym_partial_correct (C14/ProofsEndToEnd.v).  What remains:
+   the models must RETURN (`pca_fit ... = Some st`: convergence of the sweeps is not proved, and over
+   the reals with eps = 0 a generic matrix needing a sweep does not return), and on the SVD path C01's
+   side condition `bd_regular` (every bidiagonal entry is zero or at least minpos in size), packaged as
+   `pca_svd_regular` (vacuous on the EVD path).  Rounding is outside these statements. *)
+From SC Require Import C14.ProofsEndToEnd.
+From SC Require C01.Proofs_svd_bidiag C01.Proofs_svd_accum.
+
+(* pca_fact_ok holds for the modelled factorisations *)
+Theorem C14_pca_factorisation_hypothesis_discharged : forall cs minpos X corr,
+  0 < minpos -> C01.Proofs_svd_bidiag.cs_spec cs -> pca_svd_regular cs minpos X corr ->
+  pca_fact_ok (svd_fact cs minpos) evd_fact X corr.
+Proof. exact pca_fact_ok_end_to_end. Qed.
+
+(* tsvd_fact_ok holds for the modelled SVD on tall or square data (for wide data C01's statement
+   gives U U^T = I only, from which (X^T X) V = V diag(s^2) does not follow without knowing which
+   singular values vanish: not discharged) *)
+Theorem C14_tsvd_factorisation_hypothesis_discharged : forall cs minpos X,
+  (ncols X <= nrows X)%nat -> 0 < minpos -> C01.Proofs_svd_bidiag.cs_spec cs ->
+  C01.Proofs_svd_accum.bd_regular minpos (ncols X)
+    (C01.Proofs_svd_accum.svd_bd cs (nrows X) (ncols X) (fun i j => get X i j)) ->
+  tsvd_fact_ok (svd_fact cs minpos) X.
+Proof. exact tsvd_fact_ok_end_to_end. Qed.
+
+(* a square matrix with orthonormal columns has orthonormal rows (C02 states V^T V = I only) *)
+Theorem C14_orthocols_square_orthorows : forall p (V : Mx), orthocols p p V -> orthorows p V.
+Proof. exact orthocols_square_orthorows. Qed.
+
+Theorem C14_pca_components_and_scores_end_to_end : forall cs minpos X k corr st,
+  (2 <= nrows X)%nat ->
+  (corr = true -> forall i, (i < ncols X)%nat -> col_sd X i <> 0) ->
+  0 < minpos -> C01.Proofs_svd_bidiag.cs_spec cs -> pca_svd_regular cs minpos X corr ->
+  pca_fit ROps (svd_fact cs minpos) evd_fact X k corr = Some st ->
+  let n := nrows X in let p := ncols X in
+  let Y := pdata X corr in let S := scov n Y in
+  let W := pweights X corr (p_projection st) in
+  exists (lam : nat -> R) (T : dm R),
+    (k <= p)%nat /\
+    orthocols p k W /\ eigcols p k S W lam /\ noninc p lam /\
+    (forall c, (c < p)%nat -> lam c = evscale X corr * nth c (p_eigenvalues st) 0) /\
+    (exists V, fact_ok p S lam V /\ forall i c, (i < p)%nat -> (c < k)%nat -> W i c = get V i c) /\
+    pca_transform ROps st X = Some T /\ nrows T = n /\ ncols T = k /\ wf T /\
+    (forall r c, (r < n)%nat -> (c < k)%nat -> get T r c = mmul p Y W r c) /\
+    (forall c, (c < k)%nat -> rsum n (fun r => get T r c) = 0) /\
+    (forall a b, (a < k)%nat -> (b < k)%nat ->
+       rsum n (fun r => get T r a * get T r b) / INR (n - 1) = lam b * delta a b).
+Proof.
+  intros cs minpos X k corr st Hn Hsd Hmp Hcs Hreg Hfit.
+  exact (pca_main _ _ X k corr st Hn Hsd (pca_fact_ok_end_to_end cs minpos X corr Hmp Hcs Hreg) Hfit).
+Qed.
+
+Theorem C14_pca_scores_covariance_diagonal_end_to_end : forall cs minpos X k corr st,
+  (2 <= nrows X)%nat ->
+  (corr = true -> forall i, (i < ncols X)%nat -> col_sd X i <> 0) ->
+  0 < minpos -> C01.Proofs_svd_bidiag.cs_spec cs -> pca_svd_regular cs minpos X corr ->
+  pca_fit ROps (svd_fact cs minpos) evd_fact X k corr = Some st ->
+  exists T D (lam : nat -> R),
+    pca_transform ROps st X = Some T /\ cov ROps T = Some D /\ nrows D = k /\ ncols D = k /\
+    (forall c, (c < k)%nat -> col_mu T c = 0) /\
+    (forall a b, (a < k)%nat -> (b < k)%nat -> get D a b = if Nat.eqb a b then lam a else 0) /\
+    (forall a b, (a <= b)%nat -> (b < k)%nat -> lam b <= lam a) /\
+    eigcols (ncols X) k (scov (nrows X) (pdata X corr)) (pweights X corr (p_projection st)) lam /\
+    (forall c, (c < k)%nat -> lam c = evscale X corr * nth c (p_eigenvalues st) 0).
+Proof.
+  intros cs minpos X k corr st Hn Hsd Hmp Hcs Hreg Hfit.
+  exact (pca_scores_cov _ _ X k corr st Hn Hsd (pca_fact_ok_end_to_end cs minpos X corr Hmp Hcs Hreg) Hfit).
+Qed.
+
+Theorem C14_pca_variance_captured_optimal_end_to_end : forall cs minpos X k corr st (Q : Mx),
+  (2 <= nrows X)%nat -> (1 <= k)%nat ->
+  (corr = true -> forall i, (i < ncols X)%nat -> col_sd X i <> 0) ->
+  0 < minpos -> C01.Proofs_svd_bidiag.cs_spec cs -> pca_svd_regular cs minpos X corr ->
+  pca_fit ROps (svd_fact cs minpos) evd_fact X k corr = Some st ->
+  let n := nrows X in let p := ncols X in
+  let Y := pdata X corr in let W := pweights X corr (p_projection st) in
+  let pvar := fun (q : nat -> R) =>
+    rsum n (fun r => rsum p (fun i => Y r i * q i) * rsum p (fun i => Y r i * q i)) / INR (n - 1) in
+  orthocols p k Q ->
+  rsum k (fun a => pvar (fun i => Q i a)) <= rsum k (fun a => pvar (fun i => W i a)).
+Proof.
+  intros cs minpos X k corr st Q Hn Hk Hsd Hmp Hcs Hreg Hfit.
+  exact (pca_optimal _ _ X k corr st Q Hn Hk Hsd (pca_fact_ok_end_to_end cs minpos X corr Hmp Hcs Hreg) Hfit).
+Qed.
+
+Theorem C14_tsvd_components_and_energy_end_to_end : forall cs minpos X k C,
+  (ncols X <= nrows X)%nat -> 0 < minpos -> C01.Proofs_svd_bidiag.cs_spec cs ->
+  C01.Proofs_svd_accum.bd_regular minpos (ncols X)
+    (C01.Proofs_svd_accum.svd_bd cs (nrows X) (ncols X) (fun i j => get X i j)) ->
+  tsvd_fit ROps (svd_fact cs minpos) X k = Some C ->
+  let n := nrows X in let p := ncols X in
+  exists (s : list R) (T : dm R),
+    (k < p)%nat /\ nrows C = p /\ ncols C = k /\ wf C /\
+    orthocols p k (get C) /\
+    eigcols p k (gramm n (get X)) (get C) (fun c => lam_of s c * lam_of s c) /\
+    noninc p (fun c => lam_of s c * lam_of s c) /\
+    (exists V, svd_fact cs minpos X = Some (s, V) /\
+               fact_ok p (gramm n (get X)) (fun c => lam_of s c * lam_of s c) V /\
+               forall i c, (i < p)%nat -> (c < k)%nat -> get C i c = get V i c) /\
+    tsvd_transform ROps C X = Some T /\ nrows T = n /\ ncols T = k /\ wf T /\
+    (forall r c, (r < n)%nat -> (c < k)%nat -> get T r c = rsum p (fun i => get X r i * get C i c)) /\
+    (forall a b, (a < k)%nat -> (b < k)%nat ->
+       rsum n (fun r => get T r a * get T r b) = lam_of s b * lam_of s b * delta a b) /\
+    rsum k (fun c => rsum n (fun r => get T r c * get T r c)) = rsum k (fun c => lam_of s c * lam_of s c).
+Proof.
+  intros cs minpos X k C Hnm Hmp Hcs Hreg Hfit.
+  exact (tsvd_main _ X k C (tsvd_fact_ok_end_to_end cs minpos X Hnm Hmp Hcs Hreg) Hfit).
+Qed.
+
+Theorem C14_tsvd_energy_optimal_end_to_end : forall cs minpos X k C (Q : Mx),
+  (1 <= k)%nat -> (ncols X <= nrows X)%nat -> 0 < minpos -> C01.Proofs_svd_bidiag.cs_spec cs ->
+  C01.Proofs_svd_accum.bd_regular minpos (ncols X)
+    (C01.Proofs_svd_accum.svd_bd cs (nrows X) (ncols X) (fun i j => get X i j)) ->
+  tsvd_fit ROps (svd_fact cs minpos) X k = Some C ->
+  let n := nrows X in let p := ncols X in
+  let energy := fun (q : nat -> R) =>
+    rsum n (fun r => rsum p (fun i => get X r i * q i) * rsum p (fun i => get X r i * q i)) in
+  orthocols p k Q ->
+  rsum k (fun a => energy (fun i => Q i a)) <= rsum k (fun a => energy (fun i => get C i a)).
+Proof.
+  intros cs minpos X k C Q Hk Hnm Hmp Hcs Hreg Hfit.
+  exact (tsvd_optimal _ X k C Q Hk (tsvd_fact_ok_end_to_end cs minpos X Hnm Hmp Hcs Hreg) Hfit).
+Qed.
+
+(* the end-to-end hypotheses are satisfiable: for EVERY single-column data set with n >= 2 rows (SVD
+   path, no sweep needed) the modelled SVD returns, its bidiagonal entries are regular for a suitable
+   minpos, and PCA::fit's model returns a state *)
+Example C14_end_to_end_hypotheses_satisfiable : forall X : dm R,
+  ncols X = 1%nat -> (2 <= nrows X)%nat ->
+  exists minpos st, 0 < minpos /\ C01.Proofs_svd_bidiag.cs_spec copysignR /\
+    pca_svd_regular copysignR minpos X false /\
+    pca_fit ROps (svd_fact copysignR minpos) evd_fact X 1 false = Some st.
+Proof.
+  intros X Hp Hn. destruct (single_column_end_to_end X Hp Hn) as (minpos & st & H1 & H2 & H3).
+  exists minpos, st. split; [exact H1|]. split; [exact copysignR_spec|]. split; [exact H2|exact H3].
+Qed.
